@@ -6,7 +6,35 @@ import os
 V = os.path.dirname(os.path.dirname(os.path.abspath(__file__)))
 props = [json.loads(l) for l in open(os.path.join(V, 'properties.jsonl'))]
 
+SCRIPT_NOTE = ('Trusted: Coq kernel + VM; the ast translator gen_ed.py (translates _best_match, ListNode.edits dispatch, surplus slices, '
+               'cost formulas; recognises the variants of levenshtein_distance return cell, leaf cost adjustment, MultiSetEdit.bounds, '
+               'unshared_kvps container) ; the big-step model is hand-written and tied by EXACT script correspondence (kinds, positions, order, '
+               'every own cost) on every run; scipy matching and set order are validated oracle inputs, universally quantified in the theorems; '
+               'modelled node classes: leaves, lists, key/value pairs, DictNode/MultiSetNode without duplicate elements, FixedKeyDictNode; '
+               'XML/CSV/plist/dataclass nodes not modelled (not claimed).')
 CLAIMED = {
+    'C01': dict(
+        text='Theorem C01 (closed under the global context): for every oracle answer, positions and well-formed trees, if the big-step model '
+             'of the edit engine yields a script e for (a, b) then valid a b e: every child of a is paired or removed exactly once, every child '
+             'of b paired or inserted exactly once, in order for lists, recursively; string edits spell both strings. The model is tied to the '
+             'code by exact script correspondence on ~1200 (quick) document pairs x 9 option sets and the same predicate is evaluated on the '
+             "implementation's own scripts.",
+        design_ref='5.1', note=SCRIPT_NOTE,
+        technique='Coq proof (structural induction over trees + matrix back-trace lemmas) + exact script correspondence'),
+    'C03': dict(
+        text='Theorem C03: every compound edit of the model script reports the sum of the own costs of the sub-edits it lists, at every level '
+             '(EditDistance: path-sum invariant of the cost matrix; MultiSetEdit: the unmatched-node term as the current source computes it), and '
+             'the flat list of non-zero leaf edits sums to the same total. The annotated-tree view (edited_cost) is compared on every '
+             'implementation run only (not modelled).',
+        design_ref='5.3', note=SCRIPT_NOTE,
+        technique='Coq proof (path-sum invariant, additivity by induction) + exact script correspondence'),
+    'C10': dict(
+        text="Theorem C10: at every nesting level of the model script, 'none' strategy pairs only equal keys, 'auto' pairs every shared key "
+             'with itself (completeness of the pre-matching loop under distinct keys), list edits off gives positional pairs plus the surplus '
+             'tail only, off-when-same-length gives positional pairs only on equal lengths; dispatch conditions and slices are translated from '
+             'source on every run.',
+        design_ref='5.10', note=SCRIPT_NOTE,
+        technique='Coq proof over translated dispatch/slices + exact script correspondence'),
     'C14': dict(
         text='Theorems (Coq 8.16, closed under the global context) about the option resolution that is re-translated from '
              '__main__.py and get_filetype on every run: it equals the documented resolution for every namespace argparse can '
